@@ -1,0 +1,17 @@
+//go:build verif
+// +build verif
+
+package plan
+
+import (
+	driver "github.com/XiaoMi/Gaea/parser/tidb-types/parser_driver"
+	"github.com/XiaoMi/Gaea/proxy/router"
+)
+
+// Add-only export for the verification harness in /verif (build tag verif).
+
+// VerifShardingCompareValue is getShardingCompareValue: the value by which the rule
+// places a literal compared with the sharding column, and whether it places it at all.
+func VerifShardingCompareValue(rule router.Rule, x *driver.ValueExpr) (interface{}, bool, error) {
+	return getShardingCompareValue(rule, x)
+}
